@@ -138,35 +138,35 @@ package dns
 // Strings are immutable copies by construction (string(msg[a:b])); every byte slice stored into a decoded
 // option / parameter / record is freshly allocated.
 //@ func (*EDNS0_DAU).unpack [C16 C12:fresh]
-//@   ensures fresh(e.AlgCode)
+//@   ensures fresh: fresh(e.AlgCode)
 //@ func (*EDNS0_DHU).unpack [C16 C12:fresh]
-//@   ensures fresh(e.AlgCode)
+//@   ensures fresh: fresh(e.AlgCode)
 //@ func (*EDNS0_N3U).unpack [C16 C12:fresh]
-//@   ensures fresh(e.AlgCode)
+//@   ensures fresh: fresh(e.AlgCode)
 //@ func (*EDNS0_LOCAL).unpack [C16 C12:fresh]
-//@   ensures fresh(e.Data)
+//@   ensures fresh: fresh(e.Data)
 //@ func (*EDNS0_PADDING).unpack [C16 C12:fresh]
-//@   ensures fresh(e.Padding)
+//@   ensures fresh: fresh(e.Padding)
 //@ func (*EDNS0_SUBNET).unpack [C16 C12:fresh]
-//@   ensures ret0 == nil ==> fresh(e.Address)
+//@   ensures fresh: ret0 == nil ==> fresh(e.Address)
 //@ func (*SVCBMandatory).unpack [C16 C12:fresh]
-//@   ensures ret0 == nil ==> fresh(s.Code)
+//@   ensures fresh: ret0 == nil ==> fresh(s.Code)
 //@ func (*SVCBECHConfig).unpack [C16 C12:fresh]
-//@   ensures fresh(s.ECH)
+//@   ensures fresh: fresh(s.ECH)
 //@ func (*SVCBLocal).unpack [C16 C12:fresh]
-//@   ensures fresh(s.Data)
+//@   ensures fresh: fresh(s.Data)
 //@ func (*SVCBIPv4Hint).unpack [C16 C12:fresh]
-//@   ensures ret0 == nil ==> fresh(s.Hint) && (forall k in 0..len(s.Hint) :: fresh(s.Hint[k]))
-//@   loop 1 invariant fresh(b) && fresh(x) && (forall k in 0..len(x) :: fresh(x[k]))
+//@   ensures fresh: ret0 == nil ==> fresh(s.Hint) && (forall k in 0..len(s.Hint) :: fresh(s.Hint[k]))
+//@   loop 1 invariant fresh: fresh(b) && fresh(x) && (forall k in 0..len(x) :: fresh(x[k]))
 //@ func (*SVCBIPv6Hint).unpack [C16 C12:fresh]
-//@   ensures ret0 == nil ==> fresh(s.Hint) && (forall k in 0..len(s.Hint) :: fresh(s.Hint[k]))
-//@   loop 1 invariant fresh(b) && fresh(x) && (forall k in 0..len(x) :: fresh(x[k]))
+//@   ensures fresh: ret0 == nil ==> fresh(s.Hint) && (forall k in 0..len(s.Hint) :: fresh(s.Hint[k]))
+//@   loop 1 invariant fresh: fresh(b) && fresh(x) && (forall k in 0..len(x) :: fresh(x[k]))
 //@ func unpackDataNsec [C16 C12:fresh]
-//@   ensures fresh(ret0)
-//@   loop 1 invariant fresh(nsec)
-//@   loop 2 invariant fresh(nsec)
+//@   ensures fresh: fresh(ret0)
+//@   loop 1 invariant fresh: fresh(nsec)
+//@   loop 2 invariant fresh: fresh(nsec)
 //@ func unpackDataAplPrefix [C16 C12:fresh]
-//@   ensures ret2 == nil ==> fresh(ret0.Network.IP) && fresh(ret0.Network.Mask)
+//@   ensures fresh: ret2 == nil ==> fresh(ret0.Network.IP) && fresh(ret0.Network.Mask)
 
 //@ func (*Msg).CopyTo [C16]
 //@   opt no-safety
